@@ -70,7 +70,7 @@ func seqTargets(sp space) []target {
 	ts := []target{
 		{"content.ReadAll", true, true, 4, runReadAll},
 		{"content.FetchAll", true, false, 4, runFetchAll},
-		{"content.VerifyReader", false, false, 32, func(c *driver.Ctx, k *kase) *fail { return runVerifyReader(c, k, sp) }},
+		{"content.VerifyReader", true, false, 64, func(c *driver.Ctx, k *kase) *fail { return runVerifyReader(c, k, sp) }},
 		{"ioutil.CopyBuffer", true, true, 8, runCopyBuffer},
 	}
 	for _, p := range pushTargets() {
@@ -256,6 +256,8 @@ func runVerifyReader(c *driver.Ctx, k *kase, sp space) *fail {
 
 // ---- ioutil.CopyBuffer
 
+var copyBuf = make([]byte, 1<<20)
+
 type plainWriter struct{ b []byte }
 
 func (w *plainWriter) Write(p []byte) (int, error) { w.b = append(w.b, p...); return len(p), nil }
@@ -272,15 +274,15 @@ func runCopyBuffer(c *driver.Ctx, k *kase) *fail {
 		var err error
 		if bs == 0 { // bytes.Buffer: io.CopyBuffer takes the ReaderFrom path
 			var bb bytes.Buffer
-			err = ioutil.CopyBuffer(&bb, rd, make([]byte, 1<<20), k.d.oci(nil))
+			err = ioutil.CopyBuffer(&bb, rd, copyBuf, k.d.oci(nil))
 			got = bb.Bytes()
 		} else {
 			w := &plainWriter{}
-			sz := bs
+			buf := copyBuf[:bs]
 			if big {
-				sz = 1 << 20
+				buf = copyBuf
 			}
-			err = ioutil.CopyBuffer(w, rd, make([]byte, sz), k.d.oci(nil))
+			err = ioutil.CopyBuffer(w, rd, buf, k.d.oci(nil))
 			got = w.b
 		}
 		if got == nil {
